@@ -360,7 +360,10 @@ def _run_harnesses_uncached(scratch, package, harnesses, jobs=8, timeout=3600, e
                 meta2['fragile_overlays_dropped'] = dropped
                 meta2['wall_s'] += wall
                 return res, meta2
-        raise ToolLimit('overlay/crate did not compile under kani:\n' + out[-4000:])
+        _ls = out.split('\n')
+        _errs = [i for i, l in enumerate(_ls) if re.match(r'error(\[E\d+\])?:', l)]
+        _first = '\n'.join(_ls[_errs[0]:_errs[0] + 12]) if _errs else ''
+        raise ToolLimit('overlay/crate did not compile under kani: ' + _first + '\n...\n' + out[-1500:])
     res = parse_terse(out)
     # map by short name
     short = {}
@@ -373,6 +376,8 @@ def concrete_playback(scratch, package, harness, timeout=1800, target_slot='main
     """Re-run one failing harness asking Kani for a concrete counterexample (printed unit test)."""
     env = dict(os.environ)
     env['CARGO_NET_OFFLINE'] = 'true'
+    if target_slot == 'main':
+        target_slot = os.environ.get('VERIF_KANI_SLOT', 'main')
     env['CARGO_TARGET_DIR'] = os.path.join(CACHE, 'kani-target-' + target_slot)
     cmd = ['cargo', 'kani', '-p', package, '-Z', 'function-contracts', '-Z', 'stubbing', '-Z', 'concrete-playback',
            '--concrete-playback=print', '--harness', harness, '--output-format', 'terse']
@@ -401,10 +406,23 @@ def native_playback(scratch, package, harness, test_code, timeout=1200, target_s
     if target is None:
         return None
     names = re.findall(r'fn (kani_concrete_playback_\w+)\(', test_code)
+    original = open(target).read()
     with open(target, 'a') as fh:
         fh.write('\n// ---- concrete playback tests generated by Kani for the failed harness ----\n' + test_code + '\n')
+    try:
+        return _native_playback_run(scratch, package, harness, timeout, target_slot)
+    finally:
+        # the scratch tree is shared with the Kani units that run after this one: the generated tests (which need not even
+        # be valid Rust: Kani copies cover names with quotes into doc comments) must not stay in the harness module
+        with open(target, 'w') as fh:
+            fh.write(original)
+
+
+def _native_playback_run(scratch, package, harness, timeout, target_slot):
     env = dict(os.environ)
     env['CARGO_NET_OFFLINE'] = 'true'
+    if target_slot == 'main':
+        target_slot = os.environ.get('VERIF_KANI_SLOT', 'main')
     env['CARGO_TARGET_DIR'] = os.path.join(CACHE, 'kani-target-' + target_slot)
     cmd = ['cargo', 'kani', 'playback', '-Z', 'concrete-playback', '-p', package, '--', 'kani_concrete_playback_' + harness]
     try:
